@@ -448,7 +448,9 @@ class C13(Check):
                 seen.add(sig)
                 R.violation(sig, case, det)
         R.case(case, nontrivial=obs['raw'] is not None and len(spec['records']) >= 1,
-               outcome=verdicts[0][0] if verdicts else 'round-trip ok', cls=cls)
+               outcome=verdicts[0][0] if verdicts else 'round-trip ok' + (
+                   '/numbers-wrapped' if any(r[0] > 99999 or r[3] > 99999 for r in spec['records']) else '') + (
+                   '/velocities' if any(len(r) > 7 for r in spec['records']) else ''), cls=cls)
         R.add('records_written', len(spec['records']))
         if obs['raw'] is not None:
             # informational only: byte-exact agreement with the reference formatter (alignment,
